@@ -89,6 +89,22 @@ class RecObserver(Observer):
             hook(self, notification_type, data)
 
 
+# one function object that an application registers at several schedulers (e.g. one logging function)
+SHARED_TARGET = [None]
+
+
+def _shared(kind):
+    def shared_listener(api):
+        run = SHARED_TARGET[0]
+        if run is not None:
+            run.notified(kind, 9, api)
+    shared_listener.__name__ = "shared_listener_" + kind
+    return shared_listener
+
+
+SHARED = {k: _shared(k) for k in ("ts", "ss", "sf", "tf")}
+
+
 class _Listener:
     def __init__(self, run, kind, j):
         self.run, self.kind, self.j = run, kind, j
@@ -167,6 +183,8 @@ class Run:
 
     def listener(self, kind, j):
         """listeners are bound methods: every call returns a new, equal method object (as applications register them)"""
+        if j == 9:
+            return SHARED[kind]
         key = (kind, j)
         if key not in self.fns:
             self.fns[key] = _Listener(self, kind, j)
